@@ -53,6 +53,8 @@ func heapAllocBytes() uint64 {
 	return 0
 }
 
+var hostileSeq int
+
 var (
 	hostilePayloadMu sync.Mutex
 	hostilePayload   []byte
@@ -127,7 +129,9 @@ func execHostile(req hostileReq, dir string) (resp hostileResp) {
 	case "archiveinfo":
 		decode("ArchiveInfo", func() codec { return &wt.ArchiveInfo{} })
 	case "file":
-		p := filepath.Join(dir, "hostile.wsp")
+		// a fresh name per request: a panic inside Open leaves the descriptor (and its lock) behind
+		hostileSeq++
+		p := filepath.Join(dir, fmt.Sprintf("hostile-%d.wsp", hostileSeq))
 		os.WriteFile(p, req.Data, 0644)
 		defer os.Remove(p)
 		var db *wt.Whisper
